@@ -51,11 +51,11 @@ Proof. reflexivity. Qed.
 
 (* the instantiated models are the parametric ones *)
 Lemma m_zyx M : m_tr2rpy_zyx_rad Rops M = tr2rpy_zyx Rops (IZR c_tr2rpy_zyx) M.
-Proof. unfold m_tr2rpy_zyx_rad, tr2rpy_zyx_u. cbn [of_Z Rops]. destruct (tr2rpy_zyx _ _ _) as [[[? ?] ?]|]; reflexivity. Qed.
+Proof. unfold m_tr2rpy_zyx_rad, tr2rpy_zyx_u. cbn [of_Z Rops scale_unit]. reflexivity. Qed.
 Lemma m_xyz M : m_tr2rpy_xyz_rad Rops M = tr2rpy_xyz Rops (IZR c_tr2rpy_xyz) M.
-Proof. unfold m_tr2rpy_xyz_rad, tr2rpy_xyz_u. cbn [of_Z Rops]. destruct (tr2rpy_xyz _ _ _) as [[[? ?] ?]|]; reflexivity. Qed.
+Proof. unfold m_tr2rpy_xyz_rad, tr2rpy_xyz_u. cbn [of_Z Rops scale_unit]. reflexivity. Qed.
 Lemma m_yxz M : m_tr2rpy_yxz_rad Rops M = tr2rpy_yxz Rops (IZR c_tr2rpy_yxz) M.
-Proof. unfold m_tr2rpy_yxz_rad, tr2rpy_yxz_u. cbn [of_Z Rops]. destruct (tr2rpy_yxz _ _ _) as [[[? ?] ?]|]; reflexivity. Qed.
+Proof. unfold m_tr2rpy_yxz_rad, tr2rpy_yxz_u. cbn [of_Z Rops scale_unit]. reflexivity. Qed.
 Lemma m_eul (flip : bool) (M : M33 R) : (if flip then m_tr2eul_flip_rad Rops M else m_tr2eul_noflip_rad Rops M)
    = tr2eul Rops (IZR c_tr2eul_1) (IZR c_tr2eul_2) flip M.
 Proof. destruct flip; unfold m_tr2eul_flip_rad, m_tr2eul_noflip_rad, tr2eul_u; cbn [of_Z Rops scale_unit]; reflexivity. Qed.
@@ -64,36 +64,36 @@ Proof. destruct flip; unfold m_tr2eul_flip_rad, m_tr2eul_noflip_rad, tr2eul_u; c
 Definition off_band (k : Z) (x : R) : Prop := ~ Rabs (Rabs x - 1) < IZR k * eps Rops.
 
 (* ============================================================ RIGHT INVERSE, roll-pitch-yaw *)
-(* Full statement (for every rotation R, exactly):  m_tr2rpy R = Some (r,p,y) -> rpy2r r p y = R.
+(* Full statement (for every rotation R, exactly):  m_tr2rpy R = (r,p,y) -> rpy2r r p y = R.
    It is FALSE of the faithful model strictly inside the singular band (the code forces roll = 0 there): see
    C05_rpy_zyx_exact_in_band_refuted.  Proved: outside the band for whichever formula argmax selects (and for each of
    the four formulas separately), and at the exact singularity. *)
 Theorem C05_rpy_zyx_right_inverse_partial : forall (M : M33 R) r p y,
   SO3 M -> (let '((r00,r01,r02),(r10,r11,r12),(r20,r21,r22)) := M in off_band c_tr2rpy_zyx r20) ->
-  m_tr2rpy_zyx_rad Rops M = Some (r, p, y) -> tr_rpy2r_zyx Rops r p y = M.
+  m_tr2rpy_zyx_rad Rops M = (r, p, y) -> tr_rpy2r_zyx Rops r p y = M.
 Proof.
   intros M r p y H Hb E. rewrite m_zyx in E. rewrite C05_rpy2r_zyx_order.
-  apply (tr2rpy_zyx_right_inverse (IZR c_tr2rpy_zyx) M (r,p,y) H); [thr| |exact E].
+  pose proof (tr2rpy_zyx_right_inverse (IZR c_tr2rpy_zyx) M H) as RI. rewrite E in RI. apply RI; [thr|].
   destruct M as [[[[? ?] ?] [[? ?] ?]] [[? ?] ?]]. apply is_sing_false. exact Hb.
 Qed.
 Print Assumptions C05_rpy_zyx_right_inverse_partial.
 
 Theorem C05_rpy_xyz_right_inverse_partial : forall (M : M33 R) r p y,
   SO3 M -> (let '((r00,r01,r02),(r10,r11,r12),(r20,r21,r22)) := M in off_band c_tr2rpy_xyz r02) ->
-  m_tr2rpy_xyz_rad Rops M = Some (r, p, y) -> tr_rpy2r_xyz Rops r p y = M.
+  m_tr2rpy_xyz_rad Rops M = (r, p, y) -> tr_rpy2r_xyz Rops r p y = M.
 Proof.
   intros M r p y H Hb E. rewrite m_xyz in E. rewrite C05_rpy2r_xyz_order.
-  apply (tr2rpy_xyz_right_inverse (IZR c_tr2rpy_xyz) M (r,p,y) H); [thr| |exact E].
+  pose proof (tr2rpy_xyz_right_inverse (IZR c_tr2rpy_xyz) M H) as RI. rewrite E in RI. apply RI; [thr|].
   destruct M as [[[[? ?] ?] [[? ?] ?]] [[? ?] ?]]. apply is_sing_false. exact Hb.
 Qed.
 Print Assumptions C05_rpy_xyz_right_inverse_partial.
 
 Theorem C05_rpy_yxz_right_inverse_partial : forall (M : M33 R) r p y,
   SO3 M -> (let '((r00,r01,r02),(r10,r11,r12),(r20,r21,r22)) := M in off_band c_tr2rpy_yxz r12) ->
-  m_tr2rpy_yxz_rad Rops M = Some (r, p, y) -> tr_rpy2r_yxz Rops r p y = M.
+  m_tr2rpy_yxz_rad Rops M = (r, p, y) -> tr_rpy2r_yxz Rops r p y = M.
 Proof.
   intros M r p y H Hb E. rewrite m_yxz in E. rewrite C05_rpy2r_yxz_order.
-  apply (tr2rpy_yxz_right_inverse (IZR c_tr2rpy_yxz) M (r,p,y) H); [thr| |exact E].
+  pose proof (tr2rpy_yxz_right_inverse (IZR c_tr2rpy_yxz) M H) as RI. rewrite E in RI. apply RI; [thr|].
   destruct M as [[[[? ?] ?] [[? ?] ?]] [[? ?] ?]]. apply is_sing_false. exact Hb.
 Qed.
 Print Assumptions C05_rpy_yxz_right_inverse_partial.
@@ -101,13 +101,11 @@ Print Assumptions C05_rpy_yxz_right_inverse_partial.
 (* non-vacuity: a generic rotation is outside the band and the model returns angles for it *)
 Example C05_rpy_right_inverse_nonvacuous :
   let M := tr_rpy2r_zyx Rops 0 0 0 in
-  SO3 M /\ (let '((r00,r01,r02),(r10,r11,r12),(r20,r21,r22)) := M in off_band c_tr2rpy_zyx r20) /\
-  exists a, m_tr2rpy_zyx_rad Rops M = Some a.
+  SO3 M /\ (let '((r00,r01,r02),(r10,r11,r12),(r20,r21,r22)) := M in off_band c_tr2rpy_zyx r20).
 Proof.
-  cbv zeta. split; [apply C05_constructors_in_SO3|]. split.
-  - autounfold with smgen. sm_simpl. unfold off_band. rewrite sin_0. replace (-1 * 0) with 0 by ring.
-    rewrite Rabs_R0. replace (0 - 1) with (-1) by ring. rewrite Rabs_left by lra. unfold c_tr2rpy_zyx. cbn. lra.
-  - rewrite m_zyx. apply tr2rpy_zyx_total. apply C05_constructors_in_SO3.
+  cbv zeta. split; [apply C05_constructors_in_SO3|].
+  autounfold with smgen. sm_simpl. unfold off_band. rewrite sin_0. replace (-1 * 0) with 0 by ring.
+  rewrite Rabs_R0. replace (0 - 1) with (-1) by ring. rewrite Rabs_left by lra. unfold c_tr2rpy_zyx. cbn. lra.
 Qed.
 
 (* every one of the four argmax-selected formulas is a right inverse wherever its own denominator is non-zero:
@@ -132,9 +130,9 @@ Proof. unfold nonsing_zyx, den_zyx, sel4. lin_simpl. repeat split; lra. Qed.
 (* exact singular configuration: pitch = +-90 deg *)
 Theorem C05_rpy_singular_exact : forall (M : M33 R), SO3 M ->
   let '((r00,r01,r02),(r10,r11,r12),(r20,r21,r22)) := M in
-  ((r20 = 1 \/ r20 = -1) -> exists p y, m_tr2rpy_zyx_rad Rops M = Some (0,p,y) /\ tr_rpy2r_zyx Rops 0 p y = M) /\
-  ((r02 = 1 \/ r02 = -1) -> exists p y, m_tr2rpy_xyz_rad Rops M = Some (0,p,y) /\ tr_rpy2r_xyz Rops 0 p y = M) /\
-  ((r12 = 1 \/ r12 = -1) -> exists p y, m_tr2rpy_yxz_rad Rops M = Some (0,p,y) /\ tr_rpy2r_yxz Rops 0 p y = M).
+  ((r20 = 1 \/ r20 = -1) -> exists p y, m_tr2rpy_zyx_rad Rops M = (0,p,y) /\ tr_rpy2r_zyx Rops 0 p y = M) /\
+  ((r02 = 1 \/ r02 = -1) -> exists p y, m_tr2rpy_xyz_rad Rops M = (0,p,y) /\ tr_rpy2r_xyz Rops 0 p y = M) /\
+  ((r12 = 1 \/ r12 = -1) -> exists p y, m_tr2rpy_yxz_rad Rops M = (0,p,y) /\ tr_rpy2r_yxz Rops 0 p y = M).
 Proof.
   intros M H. pose proof C05_thresholds_ok as T.
   pose proof (tr2rpy_zyx_singular_exact (IZR c_tr2rpy_zyx) M H ltac:(tauto)) as Z.
@@ -155,46 +153,60 @@ Proof. split; [apply SO3_roty; ring|]. lin_simpl. ring. Qed.
 Definition band_witness : M33 R :=
   let s := 1 - 4 * eps Rops in let c := sqrt (1 - s*s) in ((c, s, 0), (0, 0, -1), (-s, c, 0)).
 Theorem C05_rpy_zyx_exact_in_band_refuted :
-  exists M r p y, SO3 M /\ m_tr2rpy_zyx_rad Rops M = Some (r,p,y) /\ tr_rpy2r_zyx Rops r p y <> M.
+  exists M r p y, SO3 M /\ m_tr2rpy_zyx_rad Rops M = (r,p,y) /\ tr_rpy2r_zyx Rops r p y <> M.
 Proof.
-  assert (He : eps Rops = / 4503599627370496) by reflexivity.
-  set (s := 1 - 4 * eps Rops). assert (Hs : 0 < s < 1) by (unfold s; rewrite He; lra).
+  set (s := 1 - 4 * eps Rops). assert (Hs : 0 < s < 1) by (unfold s; rewrite eps_val; lra).
   set (c := sqrt (1 - s*s)). assert (Hc : 0 < c) by (apply sqrt_lt_R0; nra).
   assert (Hcc : c*c = 1 - s*s) by (apply sqrt_sqrt; nra).
   assert (Hso : SO3 band_witness).
   { unfold band_witness. fold s. fold c. unfold SO3. repeat split; nra. }
-  destruct (tr2rpy_zyx_total (IZR c_tr2rpy_zyx) band_witness Hso) as [[[r p] y] E].
+  destruct (tr2rpy_zyx Rops (IZR c_tr2rpy_zyx) band_witness) as [[r p] y] eqn:E.
   exists band_witness, r, p, y. split; [exact Hso|]. rewrite m_zyx. split; [exact E|].
   assert (Hr : r = 0).
   { unfold band_witness in E. fold s in E. fold c in E. unfold tr2rpy_zyx in E.
     assert (S : is_sing Rops (IZR c_tr2rpy_zyx) (- s) = true).
     { apply is_sing_true. rewrite Rabs_Ropp, (Rabs_right s) by lra. rewrite Rabs_left by lra.
-      unfold c_tr2rpy_zyx, s. rewrite He. lra. }
-    rewrite S in E. unfold rpy_zyx_sing in E. destruct (asin_py Rops (- s)); [|discriminate]. injection E; intros; subst; reflexivity. }
+      unfold c_tr2rpy_zyx, s. rewrite eps_val. lra. }
+    rewrite S in E. unfold rpy_zyx_sing in E. injection E; intros; subst; reflexivity. }
   subst r. rewrite C05_rpy2r_zyx_order. unfold band_witness. fold s. fold c.
   unfold Rz, Ry, Rx. lin_simpl. rewrite sin_0. intros Q.
-  assert (Q' : snd (fst (snd (cos p * 0, cos p * cos 0, (cos p * 0 + 0, cos p * 0, 0)) , 0) ) = 0) by reflexivity.
   injection Q; intros. nra.
 Qed.
 Print Assumptions C05_rpy_zyx_exact_in_band_refuted.
 
-(* tr2rpy never raises on an EXACT rotation matrix ... *)
-Theorem C05_rpy_total_partial : forall M : M33 R, SO3 M ->
-  (exists a, m_tr2rpy_zyx_rad Rops M = Some a) /\ (exists a, m_tr2rpy_xyz_rad Rops M = Some a) /\ (exists a, m_tr2rpy_yxz_rad Rops M = Some a).
-Proof.
-  intros M H. rewrite m_zyx, m_xyz, m_yxz.
-  repeat split; [apply tr2rpy_zyx_total|apply tr2rpy_xyz_total|apply tr2rpy_yxz_total]; exact H.
-Qed.
-Print Assumptions C05_rpy_total_partial.
-(* ... but the full statement "defined for every matrix the library accepts as a rotation" is refuted: a matrix whose
-   orthogonality defect is 2 ulp (accepted by isrot/isR, tolerance 100 eps) with |R31| = 1 + 2^-52 is inside the band and
-   math.asin raises.  This is the L-impl finding oracle:rpy:singular:asin-domain-error. *)
+(* TOTALITY (full statement, since /repo dd68bbe clips the asin argument): tr2rpy is a total function of its matrix
+   argument -- by the type of the (tied) model -- and in the singular band it returns roll = 0 and
+   pitch = -+asin(clip(x)) for EVERY matrix, rotation or not.  The matrix that refuted totality before the fix
+   (orthogonality defect <= 3 eps, det = 1 + eps, R31 = -(1 + eps): inside the band, asin raised) now gives pitch = pi/2. *)
 Definition defect33 (M : M33 R) : M33 R := msub33 Rops (mmul33 Rops M (mtr33 M)) (I33 Rops).
 Definition maxabs33 (M : M33 R) : R :=
   let '((a,b,c),(d,e,f),(g,h,i)) := M in
   Rmax (Rabs a) (Rmax (Rabs b) (Rmax (Rabs c) (Rmax (Rabs d) (Rmax (Rabs e) (Rmax (Rabs f) (Rmax (Rabs g) (Rmax (Rabs h) (Rabs i)))))))).
-Theorem C05_rpy_total_refuted :
-  exists M : M33 R, maxabs33 (defect33 M) <= 3 * eps Rops /\ det33 Rops M = 1 + eps Rops /\ m_tr2rpy_zyx_rad Rops M = None.
+Theorem C05_rpy_total : forall M : M33 R,
+  let '((r00,r01,r02),(r10,r11,r12),(r20,r21,r22)) := M in
+  (is_sing Rops (IZR c_tr2rpy_zyx) r20 = true -> exists y, m_tr2rpy_zyx_rad Rops M = (0, - asin (clip1 Rops r20), y)) /\
+  (is_sing Rops (IZR c_tr2rpy_xyz) r02 = true -> exists y, m_tr2rpy_xyz_rad Rops M = (0, asin (clip1 Rops r02), y)) /\
+  (is_sing Rops (IZR c_tr2rpy_yxz) r12 = true -> exists y, m_tr2rpy_yxz_rad Rops M = (0, - asin (clip1 Rops r12), y)).
+Proof.
+  intros M. rewrite m_zyx, m_xyz, m_yxz. destruct M as [[[[r00 r01] r02] [[r10 r11] r12]] [[r20 r21] r22]].
+  unfold tr2rpy_zyx, tr2rpy_xyz, tr2rpy_yxz. repeat split; intros ->; eexists; reflexivity.
+Qed.
+Print Assumptions C05_rpy_total.
+(* on exact rotations the clip changes nothing *)
+Theorem C05_rpy_clip_invisible_on_SO3 : forall M : M33 R, SO3 M ->
+  let '((r00,r01,r02),(r10,r11,r12),(r20,r21,r22)) := M in
+  clip1 Rops r20 = r20 /\ clip1 Rops r02 = r02 /\ clip1 Rops r12 = r12.
+Proof.
+  intros M H. destruct M as [[[[r00 r01] r02] [[r10 r11] r12]] [[r20 r21] r22]]. so3_facts H.
+  repeat split; apply clip1_in.
+  - apply (sq_le1 r20 (r21*r21+r22*r22)); [lra|clear; nra].
+  - apply (sq_le1 r02 (r00*r00+r01*r01)); [lra|clear; nra].
+  - apply (sq_le1 r12 (r10*r10+r11*r11)); [lra|clear; nra].
+Qed.
+Print Assumptions C05_rpy_clip_invisible_on_SO3.
+Theorem C05_rpy_total_former_witness :
+  exists M : M33 R, maxabs33 (defect33 M) <= 3 * eps Rops /\ det33 Rops M = 1 + eps Rops /\
+    exists y, m_tr2rpy_zyx_rad Rops M = (0, PI/2, y).
 Proof.
   exists ((0,0,1),(0,1,0),(-(1 + eps Rops),0,0)). split; [|split].
   - unfold defect33, maxabs33. lin_simpl.
@@ -207,14 +219,16 @@ Proof.
     assert (A1 : Rabs (- (1 + eps Rops)) = 1 + eps Rops) by (rewrite Rabs_Ropp; apply Rabs_right; lra).
     assert (S : is_sing Rops (IZR c_tr2rpy_zyx) (- (1 + eps Rops)) = true).
     { apply is_sing_true. rewrite A1. rewrite Rabs_right by lra. unfold c_tr2rpy_zyx. lra. }
-    rewrite S. unfold rpy_zyx_sing, asin_py. cbn [ltb abs_ one Rops]. rewrite A1.
-    unfold Rltb. destruct (Rlt_dec 1 (1 + eps Rops)) as [_|N]; [reflexivity|exfalso; apply N; lra].
+    rewrite S. unfold rpy_zyx_sing, asin_clip.
+    assert (C : clip1 Rops (- (1 + eps Rops)) = Ropp 1).
+    { unfold clip1. cbn [ltb neg one Rops]. unfold Rltb. destruct (Rlt_dec (- (1 + eps Rops)) (- (1))); [reflexivity|lra]. }
+    rewrite C. eexists. cbn [neg zero Rops]. rewrite asin_opp, asin_1. repeat f_equal. lra.
 Qed.
-Print Assumptions C05_rpy_total_refuted.
+Print Assumptions C05_rpy_total_former_witness.
 
 (* ranges: roll, yaw in [-pi, pi], pitch in [-pi/2, pi/2] -- for every input matrix *)
 Theorem C05_rpy_ranges : forall (M : M33 R) r p y,
-  (m_tr2rpy_zyx_rad Rops M = Some (r,p,y) \/ m_tr2rpy_xyz_rad Rops M = Some (r,p,y) \/ m_tr2rpy_yxz_rad Rops M = Some (r,p,y)) ->
+  (m_tr2rpy_zyx_rad Rops M = (r,p,y) \/ m_tr2rpy_xyz_rad Rops M = (r,p,y) \/ m_tr2rpy_yxz_rad Rops M = (r,p,y)) ->
   Rabs r <= PI /\ Rabs p <= PI/2 /\ Rabs y <= PI.
 Proof.
   intros M r p y. rewrite m_zyx, m_xyz, m_yxz. intros [E|[E|E]];
@@ -287,36 +301,21 @@ Print Assumptions C05_theta_right_inverse.
 
 (* ============================================================ degrees = radians * 180/pi on the extraction side *)
 Theorem C05_extraction_deg : forall (M : M33 R) (A2 : M22 R),
-  m_tr2rpy_zyx_deg Rops M = option_map (fun a => let '(r,p,y) := a in (r*(180/PI), p*(180/PI), y*(180/PI))) (m_tr2rpy_zyx_rad Rops M) /\
-  m_tr2rpy_xyz_deg Rops M = option_map (fun a => let '(r,p,y) := a in (r*(180/PI), p*(180/PI), y*(180/PI))) (m_tr2rpy_xyz_rad Rops M) /\
-  m_tr2rpy_yxz_deg Rops M = option_map (fun a => let '(r,p,y) := a in (r*(180/PI), p*(180/PI), y*(180/PI))) (m_tr2rpy_yxz_rad Rops M) /\
-  m_tr2eul_noflip_deg Rops M = (let '(r,p,y) := m_tr2eul_noflip_rad Rops M in (r*(180/PI), p*(180/PI), y*(180/PI))) /\
-  m_tr2eul_flip_deg Rops M = (let '(r,p,y) := m_tr2eul_flip_rad Rops M in (r*(180/PI), p*(180/PI), y*(180/PI))) /\
-  m_theta2_deg Rops A2 = m_theta2_rad Rops A2 * (180/PI).
+  let sc := fun a : V3 R => let '(r,p,y) := a in (r*(180/PI), p*(180/PI), y*(180/PI)) in
+  m_tr2rpy_zyx_deg Rops M = sc (m_tr2rpy_zyx_rad Rops M) /\
+  m_tr2rpy_xyz_deg Rops M = sc (m_tr2rpy_xyz_rad Rops M) /\
+  m_tr2rpy_yxz_deg Rops M = sc (m_tr2rpy_yxz_rad Rops M) /\
+  m_tr2eul_noflip_deg Rops M = sc (m_tr2eul_noflip_rad Rops M) /\
+  m_tr2eul_flip_deg Rops M = sc (m_tr2eul_flip_rad Rops M) /\
+  m_theta2_deg Rops A2 = m_theta2_rad Rops A2 * (180/PI) /\
+  m_tr2xyt_deg Rops M = (let '(x,y,t) := m_tr2xyt_rad Rops M in (x, y, t*(180/PI))).
 Proof.
-  intros. unfold m_tr2rpy_zyx_deg, m_tr2rpy_zyx_rad, m_tr2rpy_xyz_deg, m_tr2rpy_xyz_rad, m_tr2rpy_yxz_deg, m_tr2rpy_yxz_rad,
+  intros. unfold sc, m_tr2rpy_zyx_deg, m_tr2rpy_zyx_rad, m_tr2rpy_xyz_deg, m_tr2rpy_xyz_rad, m_tr2rpy_yxz_deg, m_tr2rpy_yxz_rad,
     m_tr2eul_noflip_deg, m_tr2eul_noflip_rad, m_tr2eul_flip_deg, m_tr2eul_flip_rad, m_theta2_deg, m_theta2_rad,
-    tr2rpy_zyx_u, tr2rpy_xyz_u, tr2rpy_yxz_u, tr2eul_u.
-  split; [|split; [|split; [|split; [|split]]]].
-  1-3: match goal with |- option_map _ ?x = _ => destruct x as [[[? ?] ?]|] end; cbn [option_map]; try reflexivity;
-       unfold scale_unit, to_deg; sm_simpl; reflexivity.
-  1-2: match goal with |- scale_unit _ true ?x = _ => destruct x as [[? ?] ?] end; unfold scale_unit, to_deg; sm_simpl; reflexivity.
-  apply theta2_deg.
+    m_tr2xyt_deg, m_tr2xyt_rad, tr2rpy_zyx_u, tr2rpy_xyz_u, tr2rpy_yxz_u, tr2eul_u.
+  split; [|split; [|split; [|split; [|split; [|split]]]]].
+  1-5: match goal with |- scale_unit _ true ?x = _ => destruct x as [[? ?] ?] end; unfold scale_unit, to_deg; sm_simpl; reflexivity.
+  - apply theta2_deg.
+  - apply tr2xyt_deg.
 Qed.
 Print Assumptions C05_extraction_deg.
-
-(* Full statement for tr2xyt:  tr2xyt(T, 'deg') = (x, y, theta * 180/pi).  The code ignores its unit argument. *)
-Theorem C05_xyt_deg_refuted : exists A : M33 R, SE2 A /\
-  m_tr2xyt_deg Rops A <> (let '(x,y,t) := m_tr2xyt_rad Rops A in (x, y, t*(180/PI))).
-Proof.
-  exists ((0,-1,0),(1,0,0),(0,0,1)). split.
-  - unfold SE2. lin_simpl. unfold SO2. split; [repeat split; ring|reflexivity].
-  - unfold m_tr2xyt_deg, m_tr2xyt_rad, tr2xyt. sm_simpl. intros Q. injection Q as Q.
-    assert (E : atan2 1 0 = PI/2).
-    { unfold atan2. destruct (Rlt_dec 0 0); [lra|]. destruct (Rlt_dec 0 1); [reflexivity|lra]. }
-    rewrite E in Q. pose proof PI_RGT_0. assert (PI / 2 * (180 / PI) = 90) by (field; lra). pose proof PI_4. lra.
-Qed.
-Print Assumptions C05_xyt_deg_refuted.
-Theorem C05_xyt_deg_partial : forall A : M33 R, m_tr2xyt_deg Rops A = m_tr2xyt_rad Rops A.
-Proof. intros. reflexivity. Qed.
-Print Assumptions C05_xyt_deg_partial.
